@@ -23,7 +23,7 @@ def run(ctx):
     ctx.fn(body)
     sp = ("param", 1, body.locals[1].get("name") or "")
     op = ("param", 2, body.locals[2].get("name") or "")
-    w = Walker(body, max_visits=2)
+    w = utable.walker(prog, body, max_visits=2)
     ps = w.paths({sp: frozenset(["LogicVar"]), op: frozenset(["LogicVar"])})
     ctx.stats["paths_walked"] += len(ps)
     nb = 0
